@@ -714,3 +714,11 @@ def instances(tier):       # noqa: F811
         for wca in ((-1,), (-3,), (-3, -1), (-3, -2, -1)):
             out.append(mstep_instance(kind, wca, True))
     return out
+
+
+_instances_base = instances
+
+
+def instances(tier):       # noqa: F811
+    from . import loopinv
+    return _instances_base(tier) + loopinv.all_instances('C08', tier)
